@@ -253,6 +253,7 @@ type vxC17DResult struct {
 	closedCh  int32
 	overlapOp bool // by plan: a stop runs in a thread while another thread still has operations
 	dump      string
+	followed  bool // no stop in the history: the last refresh request was waited for
 }
 
 func vxC17RunRefresh(c *vxC17DCase) *vxC17DResult {
@@ -280,6 +281,7 @@ func vxC17RunRefresh(c *vxC17DCase) *vxC17DResult {
 	}
 	d := newRefreshDebouncer(iv, fn)
 	var stopBegun int32 // number of stop calls that have begun (any thread)
+	var lastReq, requests int32
 	check := func(s0 int32, stopSeen int32, ch <-chan error) {
 		err, ok := vxC17Await(ch)
 		if ok {
@@ -319,7 +321,15 @@ func vxC17RunRefresh(c *vxC17DCase) *vxC17DResult {
 			for _, op := range ops {
 				switch op.Op {
 				case "debounce":
+					s0 := atomic.LoadInt32(&started)
 					d.debounce()
+					for { // the latest request: a run must begin after it
+						old := atomic.LoadInt32(&lastReq)
+						if s0 < old || atomic.CompareAndSwapInt32(&lastReq, old, s0) {
+							break
+						}
+					}
+					atomic.AddInt32(&requests, 1)
 				case "now", "nowlater":
 					atomic.AddInt32(&res.nowCalls, 1)
 					s0 := atomic.LoadInt32(&started)
@@ -360,6 +370,20 @@ func vxC17RunRefresh(c *vxC17DCase) *vxC17DResult {
 	})
 	if res.watchdog {
 		return res
+	}
+	if atomic.LoadInt32(&stopBegun) == 0 && atomic.LoadInt32(&requests) > 0 {
+		// C16: every request for a refresh is followed by a refresh that begins after it - also one that was made
+		// while an earlier refresh was running (what that one read may be older than the event behind the request)
+		need := atomic.LoadInt32(&lastReq)
+		dl := time.Now().Add(2 * time.Second)
+		for atomic.LoadInt32(&started) <= need {
+			if time.Now().After(dl) {
+				addErr("a refresh was requested when %d runs had begun; 2 s later (interval %v) no further run has begun: the request was dropped", need, iv)
+				break
+			}
+			time.Sleep(50 * time.Microsecond)
+		}
+		res.followed = true
 	}
 	// final stop by the director: must return as well (second stop if a thread stopped already)
 	fin := make(chan struct{})
@@ -630,6 +654,9 @@ func TestVxC17Debouncer(t *testing.T) {
 				res = vxC17RunEvent(c)
 			} else {
 				res = vxC17RunRefresh(c)
+			}
+			if c.Kind == "refresh" && res.followed {
+				k.Class("refresh requests followed up (no stop in the history)")
 			}
 			if c.Kind == "refresh" {
 				switch {
